@@ -2,12 +2,35 @@
 
 Space I x configurations: every path string of a grammar (extension x case pattern x stem x trailer, compound pairs,
 data: URLs) under three mimetypes configurations (default, empty, hostile), each configuration in its own worker.
+
+Space F (filesystem layouts) x configurations: "the decision depends only on the trailing extension of the path STRING"
+also means that it does not depend on what the string designates on disk. Every case binds a given name to bytes through
+one FORM and asks (a) the router before and after the objects exist (clause fsindep: same answer, plus the usual
+equivalence/documented clauses on the live path) and (b) read_file through spy extractors (clause readfile: the spy
+reached == get_extractor(str(path)) == the documented extractor). Alphabet, exhaustively multiplied within the bounds:
+  names    every documented extension and alias, the 3 compound forms, 6 undocumented ones, lower and UPPER case, stem "a",
+           plus an extension-less name (thorough: stem "a" in up to 7 case patterns plus a dot-file get the full product
+           below; 5 further stems - inner dot, leading dot, blank, non-ASCII, inner documented extension - in lower and
+           UPPER case get the quick product);
+  forms    file (regular), symlink (absolute text), rellink (relative text), chain (link -> link -> file),
+           hardlink, dirlink (directory component is a link to a directory), dirext (real directory component),
+           dotdot (component/../name);
+  targets  name of the link target resp. of the directory component: no extension, txt, html, pdf, docx, zip, tar.gz,
+           bin (undocumented), and the given name's own extension (control);
+  contents 13 byte strings: "x", empty, and the magic prefix of pdf, zip, ole, rtf, html, gzip, bzip2, xz, 7z, mbox, mime;
+  args     how the path is handed over: absolute str, pathlib.Path, relative str (cwd = layout root), "./"-relative.
+Quick product: name x (file x contents, file x 3 other args, 4 link forms x 9 targets, symlink x 3 targets x 3 other
+args, 3 directory forms x 9 targets). Full product (thorough): name x (all forms x all targets x all args, file x
+contents x args, symlink x 9 targets x contents). Forms the host file system refuses (probed once per worker) are
+skipped and reported. Directories that exist before and after a layout (root, store/, the real directory component of
+dirext/dotdot) are scaffold; the router is asked before and after the FILES and LINKS exist.
 """
 from __future__ import annotations
 
 import itertools
 import os
 import random
+import shutil
 import tempfile
 
 from verif.mc import pool as P
@@ -222,14 +245,10 @@ def _part(arg):
     return {"ev": ev, "fails": fails, "outs": outs, "samples": samples}
 
 
-def _readfile_part(arg):
-    """read_file dispatches to the same extractor as get_extractor: spy stubs installed on every extractor module."""
-    tier, cfg, seed = arg
-    configure(cfg)
+def _install_spies():
+    """Replace every registered extractor by a spy generator that records (module, function); returns the record list."""
     import importlib
-    import sharepoint2text
     from sharepoint2text.parsing import router
-    from sharepoint2text.parsing.exceptions import ExtractionFileFormatNotSupportedError
     called = []
     for ft, (mod, fn) in router._EXTRACTOR_REGISTRY.items():
         m = importlib.import_module(mod)
@@ -243,6 +262,16 @@ def _readfile_part(arg):
             stub.__module__ = mod
             return stub
         setattr(m, fn, mk())
+    return called
+
+
+def _readfile_part(arg):
+    """read_file dispatches to the same extractor as get_extractor: spy stubs installed on every extractor module."""
+    tier, cfg, seed = arg
+    configure(cfg)
+    import sharepoint2text
+    from sharepoint2text.parsing.exceptions import ExtractionFileFormatNotSupportedError
+    called = _install_spies()
     ev = 0
     fails = []
     outs = {}
@@ -283,7 +312,319 @@ def _readfile_part(arg):
     return {"ev": ev, "fails": fails, "outs": outs, "samples": [{"config": cfg, "read_file": names[7], "files": len(names)}]}
 
 
+# ---------------------------------------------------------------------------------------------------------------------
+# Space F: filesystem layouts. The routing decision is a function of the path STRING; what the string designates on
+# disk (a link to a differently named blob, a hard link, a directory component with an extension, the bytes) is not
+# an input of it.
+FS_FORMS = ("file", "symlink", "rellink", "chain", "hardlink", "dirlink", "dirext", "dotdot")
+FS_LINK_FORMS = ("symlink", "rellink", "chain", "hardlink")
+FS_DIR_FORMS = ("dirlink", "dirext", "dotdot")
+FS_TARGETS = ("", "txt", "html", "pdf", "docx", "zip", "tar.gz", "bin", "=")     # "" no extension, "=" the given name's own
+FS_ARGS = ("str", "Path", "rel", "dotrel")
+FS_CONTENTS = {
+    "x": b"x", "empty": b"", "pdf": b"%PDF-1.4\n", "zip": b"PK\x03\x04\x14\x00", "ole": b"\xd0\xcf\x11\xe0\xa1\xb1\x1a\xe1",
+    "rtf": b"{\\rtf1 x}", "html": b"<html><body><p>x</p></body></html>", "gzip": b"\x1f\x8b\x08\x00", "bzip2": b"BZh9",
+    "xz": b"\xfd7zXZ\x00", "7z": b"7z\xbc\xaf\x27\x1c", "mbox": b"From a@b Thu Jan  1 00:00:00 1970\n\nx\n",
+    "mime": b"MIME-Version: 1.0\nContent-Type: text/plain\n\nx\n",
+}
+FS_UNDOC = ("bak", "zzz", "bin", "text", "xhtml", "zz3")
+FS_NOEXT = "noext"
+
+
+def _fs_names(tier):
+    """(A, B): names that get the tier's full product / names that get the quick product."""
+    exts = sorted(REF) + [c[1:] for c in COMPOUND] + list(FS_UNDOC)
+    a, b = [], []
+    if tier == "quick":
+        for e in exts:
+            b += ["a." + e, "a." + e.upper()]
+        b.append(FS_NOEXT)
+    else:
+        for e in exts:
+            for v in case_variants(e)[:6] + [e.upper()]:
+                a.append("a." + v)
+            for st in ("a.b", ".h", "a b", "\u00e4", "a.pdf"):
+                b += [f"{st}.{e}", f"{st}.{e.upper()}"]
+        a += [FS_NOEXT, ".txt"]
+    return sorted(set(a)), sorted(set(b))
+
+
+def _fs_suffix(name):
+    """The given name's own dot-suffix in its own spelling ('' if it has none)."""
+    low = name.lower()
+    for c in COMPOUND:
+        if low.endswith(c):
+            return name[-len(c):]
+    st = name.lstrip(".")
+    if "." not in st:
+        return ""
+    return "." + st.rsplit(".", 1)[1]
+
+
+def _fs_target(name, t, form="symlink"):
+    stem = "dir" if form in ("dirext", "dotdot") else "blob"       # real directories are scaffold and are never link names
+    if t == "=":
+        return stem + _fs_suffix(name)
+    return stem + ("." + t if t else "")
+
+
+def _fs_tkind(t):
+    if t == "":
+        return "none"
+    if t == "=":
+        return "same"
+    return "supported" if (t in REF or "." + t in COMPOUND) else "unsupported"
+
+
+def _fs_case(form, name, t, content="x", arg="str"):
+    return {"form": form, "name": name, "t": t, "target": None if form == "file" else _fs_target(name, t, form), "content": content, "arg": arg}
+
+
+def fs_cases(tier):
+    """Yield every layout of the tier (fs dicts)."""
+    full, basic = _fs_names(tier)
+    for name in basic:
+        for c in FS_CONTENTS:
+            yield _fs_case("file", name, "", c)
+        for a in FS_ARGS[1:]:
+            yield _fs_case("file", name, "", "x", a)
+        for form in FS_LINK_FORMS + FS_DIR_FORMS:
+            for t in FS_TARGETS:
+                yield _fs_case(form, name, t)
+        for t in ("", "txt", "bin"):
+            for a in FS_ARGS[1:]:
+                yield _fs_case("symlink", name, t, "x", a)
+    for name in full:
+        for c in FS_CONTENTS:
+            for a in FS_ARGS:
+                yield _fs_case("file", name, "", c, a)
+        for form in FS_LINK_FORMS + FS_DIR_FORMS:
+            for t in FS_TARGETS:
+                for a in FS_ARGS:
+                    yield _fs_case(form, name, t, "x", a)
+        for t in FS_TARGETS:
+            for c in FS_CONTENTS:
+                if c != "x":
+                    yield _fs_case("symlink", name, t, c)
+
+
+def _fs_given(fs):
+    """The path the caller writes, relative to the layout root."""
+    form, name = fs["form"], fs["name"]
+    if form in ("dirlink", "dirext"):
+        return fs["target"] + "/" + name
+    if form == "dotdot":
+        return fs["target"] + "/../" + name
+    return name
+
+
+def _fs_wrap(fs):
+    return {"path": _fs_given(fs), "class": ["fs", fs["form"], _fs_tkind(fs["t"]) if fs["form"] != "file" else "regular"], "via": "fs", "fs": fs}
+
+
+def _fs_build(root, fs):
+    form, name, target = fs["form"], fs["name"], fs["target"]
+    data = FS_CONTENTS[fs["content"]]
+
+    def put(*parts):
+        with open(os.path.join(root, *parts), "wb") as fh:
+            fh.write(data)
+    if form == "file":
+        put(name)
+    elif form in FS_LINK_FORMS:
+        put("store", target)
+        if form == "symlink":
+            os.symlink(os.path.join(root, "store", target), os.path.join(root, name))
+        elif form == "rellink":
+            os.symlink("store/" + target, os.path.join(root, name))
+        elif form == "chain":
+            os.symlink("store/" + target, os.path.join(root, "hop.json"))
+            os.symlink("hop.json", os.path.join(root, name))
+        else:
+            os.link(os.path.join(root, "store", target), os.path.join(root, name))
+    elif form == "dirlink":
+        put("store", name)
+        os.symlink("store", os.path.join(root, target))
+    elif form == "dirext":
+        put(target, name)
+    elif form == "dotdot":
+        put(name)
+    else:
+        raise ValueError(form)
+
+
+def _fs_base():
+    """Scratch directory for the layouts: a memory file system when the host has one (directory removal costs
+    milliseconds on some disk file systems); verdicts do not depend on the choice."""
+    for d in (os.environ.get("VERIF_FS_TMP"), "/dev/shm"):
+        if d and os.path.isdir(d) and os.access(d, os.W_OK | os.X_OK):
+            try:
+                return tempfile.mkdtemp(prefix="sp2t-verif-", dir=d)
+            except OSError:
+                continue
+    return tempfile.mkdtemp(prefix="sp2t-verif-")
+
+
+_FS_MADE = set()      # scaffold directories this process has made (they are never removed before the scratch base is)
+
+
+def _fs_scaffold(root, fs):
+    """Directories that exist before AND after a layout: the root, store/, and the real directory component of the
+    dirext / dotdot forms (left in place between layouts; a real directory never shares a name with anything else)."""
+    for d in (os.path.join(root, "store"),) + ((os.path.join(root, fs["target"]),) if fs["form"] in ("dirext", "dotdot") else ()):
+        if d not in _FS_MADE:
+            os.makedirs(d, exist_ok=True)
+            _FS_MADE.add(d)
+
+
+def _fs_clear(root):
+    """Remove every file and link a layout created below root (the scaffold directories stay, empty)."""
+    for ent in list(os.scandir(root)):
+        if ent.is_dir(follow_symlinks=False):
+            for sub in list(os.scandir(ent.path)):
+                os.unlink(sub.path)
+        else:
+            os.unlink(ent.path)
+
+
+def _fs_probe(base):
+    """Forms this host's file system cannot express (skipped, reported in the coverage)."""
+    bad = []
+    for form in FS_FORMS:
+        root = os.path.join(base, "probe-" + form)
+        try:
+            _fs_scaffold(root, _fs_case(form, "a.txt", "bin"))
+            _fs_build(root, _fs_case(form, "a.txt", "bin"))
+            with open(os.path.join(root, _fs_given(_fs_case(form, "a.txt", "bin"))), "rb") as fh:
+                fh.read()
+        except OSError:
+            bad.append(form)
+        shutil.rmtree(root, ignore_errors=True)
+    return bad
+
+
+def _fs_eval(base, fs, called):
+    """One layout: returns (fails [(clause, msg)], outcome)."""
+    import pathlib
+    import sharepoint2text
+    from sharepoint2text.parsing.exceptions import ExtractionFileFormatNotSupportedError
+
+    def route(p):
+        try:
+            s = sharepoint2text.is_supported_file(p)
+        except Exception as e:  # noqa
+            s = f"raised {type(e).__name__}"
+        try:
+            f = sharepoint2text.get_extractor(p)
+            return s, (f.__module__, f.__name__)
+        except ExtractionFileFormatNotSupportedError:
+            return s, "unsupported"
+        except Exception as e:  # noqa
+            return s, f"raised {type(e).__name__}"
+    root = os.path.join(base, "r")
+    _fs_scaffold(root, fs)
+    given = _fs_given(fs)
+    how = fs["arg"]
+    cwd = None
+    fails = []
+    try:
+        if how in ("rel", "dotrel"):
+            cwd = os.getcwd()
+            os.chdir(root)
+            arg = given if how == "rel" else "./" + given
+        elif how == "Path":
+            arg = pathlib.Path(os.path.join(root, given))
+        else:
+            arg = os.path.join(root, given)
+        p = str(arg)
+        shown = f"{given!r} [{fs['form']}" + (f" -> {fs['target']}" if fs["target"] else "") + f", {fs['content']}, {how}]"
+        pre = route(p)
+        _fs_build(root, fs)
+        for clause, msg in check_path(p)[0]:
+            fails.append((clause, f"{shown}: " + msg.replace(root + "/", "")))
+        post = route(p)
+        if post != pre:
+            fails.append(("fsindep", f"{shown}: router answered {pre} for the bare string and {post} once the objects exist"))
+        del called[:]
+        try:
+            list(sharepoint2text.read_file(arg))
+            got = called[0] if called else None
+        except ExtractionFileFormatNotSupportedError:
+            got = "unsupported"
+        except Exception as e:  # noqa
+            got = f"raised {type(e).__name__}"
+            fails.append(("readfile", f"read_file({shown}) raised {type(e).__name__}: {str(e).replace(root + '/', '')[:200]}"))
+        if not str(got).startswith("raised"):
+            if got != pre[1]:
+                fails.append(("readfile", f"read_file({shown}) dispatched to {got}, get_extractor on the same string gives {pre[1]}"))
+            e = ref_ext(p)
+            if e in REF and got != (_EX + REF[e][0], REF[e][1]):
+                fails.append(("readfile", f"read_file({shown}) dispatched to {got}, documented {REF[e][1]}"))
+    finally:
+        if cwd is not None:
+            os.chdir(cwd)
+        _fs_clear(root)
+    return fails, got
+
+
+def _fs_part(arg):
+    tier, cfg, k, n, seed = arg
+    configure(cfg)
+    called = _install_spies()
+    ev = 0
+    fails = []
+    outs = {}
+    per_form = {}
+    base = _fs_base()
+    try:
+        skipped = _fs_probe(base)
+        for i, fs in enumerate(fs_cases(tier)):
+            if i % n != k or fs["form"] in skipped:
+                continue
+            f, got = _fs_eval(base, fs, called)
+            ev += 1
+            if ev % 2000 == 0:
+                P.note(("fs", cfg, k, ev))        # progress: the hard timeout then bounds 2000 layouts, not the whole partition
+            per_form[fs["form"]] = per_form.get(fs["form"], 0) + 1
+            outs["fs:" + str(got)] = outs.get("fs:" + str(got), 0) + 1
+            for clause, msg in f:
+                fails.append((clause, cfg, _fs_wrap(fs), msg))
+    finally:
+        shutil.rmtree(base, ignore_errors=True)
+    samples = [{"config": cfg, "fs_layout": _fs_wrap(fs)["path"], "fs": fs}] if k == 0 and ev else []
+    return {"ev": ev, "fails": fails, "outs": outs, "samples": samples, "per_form": per_form, "skipped": skipped}
+
+
+def _fs_one(arg):
+    cfg, fs = arg
+    configure(cfg)
+    called = _install_spies()
+    base = _fs_base()
+    try:
+        if fs["form"] in _fs_probe(base):
+            return []
+        return _fs_eval(base, fs, called)[0]
+    finally:
+        shutil.rmtree(base, ignore_errors=True)
+
+
+_REEXEC_POOL = []
+
+
+def _fs_single(cfg, fs):
+    # one long-lived worker for all re-executions (the spies must never be installed in the master process)
+    if not _REEXEC_POOL:
+        _REEXEC_POOL.append(P.Pool(1))
+    res = _REEXEC_POOL[0].map("verif.props.C07", "_fs_one", [(cfg, fs)], hard_timeout=600)
+    st, r, _ = res[0]
+    if st != "done":
+        raise RuntimeError(f"fs re-execution failed: {st}: {str(r)[-300:]}")
+    return [tuple(x) for x in r]
+
+
 def reexec(fmt, case):
+    if case.get("via") == "fs":
+        return _fs_single(fmt, case["fs"])
     configure(fmt)
     p = case["path"]
     if case.get("via") == "readfile":
@@ -311,7 +652,24 @@ def _readfile_single(cfg, nm):
 
 
 def shrinks(case):
-    return []
+    if case.get("via") != "fs":
+        return []
+    fs = case["fs"]
+    out = []
+
+    def alt(**kw):
+        f = dict(fs)
+        f.update(kw)
+        if f["form"] != "file":
+            f["target"] = _fs_target(f["name"], f["t"], f["form"])
+        if f != fs:
+            out.append(_fs_wrap(f))
+    alt(arg="str")
+    alt(content="x")
+    if fs["name"] != FS_NOEXT:
+        alt(name="a.txt")
+    alt(name=fs["name"].lower())
+    return out
 
 
 def embeds(small, big):
@@ -325,16 +683,28 @@ def run(ctx):
     random.Random(ctx.seed).shuffle(args)
     res = P.run_all("verif.props.C07", "_part", args, n=ctx.ncpu, hard_timeout=1800)
     res2 = P.run_all("verif.props.C07", "_readfile_part", [(ctx.tier, c, ctx.seed) for c in cfgs], n=3, hard_timeout=1800)
+    nf = 5 if ctx.quick else 16
+    args3 = [(ctx.tier, c, k, nf, ctx.seed) for c in cfgs for k in range(nf)]
+    random.Random(ctx.seed + 1).shuffle(args3)
+    res3 = P.run_all("verif.props.C07", "_fs_part", args3, n=ctx.ncpu, hard_timeout=1800)
     ev = 0
     fails = []
     outs = {}
     samples = []
     herr = []
     per_cfg = {}
-    for (st, r, _), a in list(zip(res, args)) + list(zip(res2, [(ctx.tier, c, "rf") for c in cfgs])):
+    fs_ev = 0
+    fs_forms = {}
+    fs_skipped = set()
+    for (st, r, _), a in list(zip(res, args)) + list(zip(res2, [(ctx.tier, c, "rf") for c in cfgs])) + list(zip(res3, args3)):
         if st != "done":
             herr.append(f"task {a} failed: {st}: {str(r)[-500:]}")
             continue
+        if "per_form" in r:
+            fs_ev += r["ev"]
+            fs_skipped |= set(r["skipped"])
+            for k_, v in r["per_form"].items():
+                fs_forms[k_] = fs_forms.get(k_, 0) + v
         ev += r["ev"]
         per_cfg[a[1]] = per_cfg.get(a[1], 0) + r["ev"]
         fails += [tuple(x) for x in r["fails"]]
@@ -345,8 +715,18 @@ def run(ctx):
            "rule": "every path = stem x '.' x case-variant(extension) x trailer for every extension known to the router, the README, the "
                    "platform mimetypes maps and a junk list (all 2^n case patterns for n<=4 letters), all ordered pairs of 12 extensions as "
                    "compound forms, data: URLs for every mapped MIME type; under 3 mimetypes configurations (default, empty, hostile); "
-                   "plus read_file on real temp files with spy extractors; distinct_nontrivial = distinct (supported?, extractor) outcomes",
+                   "plus read_file on real temp files with spy extractors; plus filesystem layouts (names x forms x targets x contents x "
+                   "argument kinds, see fs_family) judged for router independence of the disk state and read_file == get_extractor; "
+                   "distinct_nontrivial = distinct (supported?, extractor) outcomes",
+           "fs_family": {"evaluations": fs_ev, "names": dict(zip(("full_product", "quick_product"), map(len, _fs_names(ctx.tier)))), "forms": list(FS_FORMS), "targets": list(FS_TARGETS),
+                         "contents": sorted(FS_CONTENTS), "args": list(FS_ARGS), "per_form": dict(sorted(fs_forms.items())),
+                         "skipped_forms": sorted(fs_skipped),
+                         "bounds": "quick_product names x (file x 13 contents + file x 3 other args + 7 link/dir forms x 9 targets + symlink x 3 "
+                                   "targets x 3 other args); full_product names (thorough only) x (file x 13 contents x 4 args + 7 link/dir "
+                                   "forms x 9 targets x 4 args + symlink x 9 targets x 12 contents)"},
            "per_config": per_cfg, "outcomes": {k: v for k, v in sorted(outs.items())[:80]}, "samples": sorted(samples, key=str)[:6], "exhaustive": True}
     return {"coverage": cov, "failures": fails, "harness_errors": herr,
             "assumptions": ["reference table transcribed from the README format tables", "paths whose trailing extension is not documented "
-                            "are only required to satisfy the equivalence and exception-type clauses (MIME fallback is host dependent by design)"]}
+                            "are only required to satisfy the equivalence and exception-type clauses (MIME fallback is host dependent by design)",
+                            "filesystem layouts are built under a tempfile.mkdtemp directory whose own components contain no dot; forms the "
+                            "host file system refuses (symbolic or hard links) are skipped and listed in fs_family.skipped_forms"]}
